@@ -67,20 +67,38 @@ def operations(tier: str) -> List[Tuple]:
 
 
 class Rig:
-    def __init__(self, tc=False):
+    def __init__(self, cfg=False):
         import pyrtma.client as CL
 
         ensure_defs()
         self.CL = CL
+        # cfg: False / True = header layout, one instance of module 33;  "twin" / "twin-tc": a second connection shares the
+        # client's module id (allow_multiple) and holds its own fixed subscriptions (A, B) throughout
+        self.twin_on = isinstance(cfg, str) and cfg.startswith("twin")
+        tc = cfg is True or cfg == "twin-tc"
         self.tc = tc
         self.w = clx.ClientWorld(timecode=tc)
         self.pub = self.w.client("PUB", 1).connect()
         self.w.settle()
         self.pub.send(P.mkframe(P.MT_CONNECT, P.p_connect(), timecode=tc, src_mod_id=21))
         self.w.settle()
+        self.twin = None
+        if self.twin_on:
+            self.twin = self.w.client("TWIN", 2).connect()
+            self.w.settle()
+            self.twin.send(P.mkframe(P.MT_CONNECT_V2, P.p_connect_v2(0, 0, 1, 33, 555, b"cee"), timecode=tc, src_mod_id=33))
+            self.w.settle()
+            self.twin.send(P.mkframe(P.MT_SUBSCRIBE, P.p_sub(A), timecode=tc, src_mod_id=33) + P.mkframe(P.MT_SUBSCRIBE, P.p_sub(B), timecode=tc, src_mod_id=33))
+            self.w.settle()
         self.c = self.w.new_client(module_id=33, timecode=tc, name="cee")
-        self.c.connect(mmx.SERVER)
+        if self.twin_on:
+            self.c.connect(mmx.SERVER, allow_multiple=True)
+        else:
+            self.c.connect(mmx.SERVER)
         self.w.settle()
+        if not self.c.connected:
+            raise core.HarnessError("C02 rig: the client under test could not connect")
+        self.c_mgr_side = self.c._sock.peer_sock
         self.drain_client()
 
     def drain_client(self):
@@ -93,7 +111,7 @@ class Rig:
     def manager_state(self) -> Tuple:
         try:
             for mod in self.w.mgr.modules.values():
-                if mod.mod_id == 33 and mod is not self.w.mgr.mm_module:
+                if mod.mod_id == 33 and mod is not self.w.mgr.mm_module and mod.conn is self.c_mgr_side:
                     return tuple(sorted(mod.subs))
         except Exception:
             pass
@@ -154,9 +172,16 @@ class Rig:
                 probs.append({"kind": "queued-frame-of-dropped-type-returned", "where": where, "type": NAMES.get(m.header.msg_type, m.header.msg_type),
                               "paused": m.header.msg_type in c.paused_subscribed_types})
         self.drain_client()
+        if self.twin is not None:
+            self.twin.drain()
         for mt in (A, B, C, D):
             self.pub.send(P.mkframe(mt, b"", timecode=self.tc, src_mod_id=21))
         self.w.settle()
+        if self.twin is not None:
+            tw = sorted(f.msg_type for f in self.twin.drain() if f.msg_type in (A, B, C, D) and f.src_mod_id == 21)
+            if tw != sorted((A, B)):
+                probs.append({"kind": "same-id-instance-delivery", "where": where, "twin_subscribed": ["A", "B"], "twin_received": [NAMES[t] for t in tw],
+                              "client_reports": [NAMES.get(t, t) for t in sorted(c.subscribed_types)]})
         frames, rest, prob = P.parse_stream(bytes(c._sock.rx), self.tc)
         arrived = sorted(f.msg_type for f in frames if f.msg_type in (A, B, C, D) and f.src_mod_id == 21)
         claimed = c.subscribed_types
@@ -275,7 +300,7 @@ def run(tier: str) -> int:
                      "the client's reported sets.")
     total_states = total_trans = 0
     distinct_outcomes = set()
-    for tc in ((False,) if tier == "quick" else (False, True)):
+    for tc in ((False, "twin") if tier == "quick" else (False, True, "twin", "twin-tc")):
         r0 = run_history(tc, [("subscribe", [])])
         seen = {r0["key"]: []}
         frontier = [[]]
@@ -304,7 +329,7 @@ def run(tier: str) -> int:
         chk.sample({"timecode": tc, "a_state": _names(list(seen.keys())[-1][0]), "reached_by": [_opname(o) for o in list(seen.values())[-1]]})
     core.close_pool()
     chk.sample({"operations": [_opname(o) for o in operations(tier)[:6]], "n_operations": len(operations(tier))})
-    chk.assumptions += ["virtual TCP model", "one client, three types + ALL + one never-subscribed type"]
+    chk.assumptions += ["virtual TCP model", "one client under test (alone, or next to a second connection sharing its module id), three types + ALL + one never-subscribed type"]
     return chk.finish({"states": total_states, "transitions": total_trans, "traces_validated_against_impl": total_trans,
                        "distinct_outcomes": len(distinct_outcomes)})
 
